@@ -408,3 +408,122 @@ def run_quotient_form(facts, rep):
                 rep.unresolved(RQ, key, "the quotient's defining computation is not one of the recognised forms", facts.loc(p, x))
     rep.floor(RQ, "assignments to MultiplyU64ModOperand::quotient", n, 1)
     return n
+
+
+def run_encode_sink(facts, rep, floor=1):
+    """R-RESIDUE(encode) [N]: coefficient encoding stores residues modulo t.  BatchEncoder::encode_polynomial takes arbitrary
+    words from the caller (a `&[u64]` parameter of a public function, not a residue buffer); every value it stores into the
+    plaintext is (i) the result of a reducing routine, or (ii) the caller's word on a path guarded by `word < modulus.value()`
+    (the only comparison that makes the identity a reduction).  A word stored under any other guard — a bit-count test
+    admits t <= v < 2^bits(t) — leaves a coefficient >= t in the plaintext: decode_polynomial returns it unreduced and the
+    plaintext fails is_valid_for."""
+    RR = "R-RESIDUE(encode)"
+    rep.rule(RR, "every coefficient BatchEncoder::encode_polynomial stores is the result of a reducing routine, or the caller's "
+             "word under the guard `word < modulus.value()`")
+    cl = Classifier(facts)
+    n = 0
+    for p in sorted(facts.hir):
+        it = facts.items[p]
+        if it["file"] != "src/batch_encoder.rs" or it["name"] != "encode_polynomial":
+            continue
+        body = facts.inlined(p)
+        sym = Sym(facts, body)
+        user = {prm["pat"]["lid"] for prm in it["params"] if prm["pat"].get("k") == "PBind" and "[u64]" in prm.get("ty", "")}
+        dests = {prm["pat"]["lid"] for prm in it["params"] if prm["pat"].get("k") == "PBind" and "Plaintext" in prm.get("ty", "")}
+        lets = {}
+        for x in walk(body):
+            if x.get("k") == "Let" and x["pat"].get("k") == "PBind" and "init" in x:
+                lets.setdefault(x["pat"]["lid"], []).append(x["init"])
+
+        def resolve(e):
+            e = strip(e)
+            for _ in range(4):
+                lo = local_of(e)
+                if lo and lo[0] in lets and len(lets[lo[0]]) == 1:
+                    e = strip(lets[lo[0]][0])
+                else:
+                    break
+            return e
+
+        def is_user_word(e):
+            e = resolve(e)
+            if e.get("k") == "Un" and e.get("op") == "*":
+                e = resolve(e["e"])
+            if e.get("k") == "Index":
+                rl = root_local(e["e"])
+                return bool(rl and rl[0] in user)
+            return False
+
+        def below_modulus(cond, word):
+            """cond is `word < M.value()` / `M.value() > word` (M.value() possibly let-bound)"""
+            c = strip(cond)
+            if c.get("k") != "Bin" or c.get("op") not in ("<", ">"):
+                return False
+            lo_, hi_ = (c["a"], c["b"]) if c["op"] == "<" else (c["b"], c["a"])
+            h = resolve(hi_)
+            if not (h.get("k") == "MCall" and h.get("name") == "value"):
+                return False
+            return sym.canon(resolve(lo_)) == sym.canon(resolve(word))
+
+        def judge(e, depth=0):
+            """-> ('ok'|'bad'|'unk', text)"""
+            e0 = strip(e)
+            if depth > 8:
+                return ("unk", "too deep")
+            if e0.get("k") == "Block" and e0.get("expr") is not None and not e0.get("stmts"):
+                return judge(e0["expr"], depth + 1)
+            if e0.get("k") == "If" and e0.get("el") is not None:
+                th, el = e0["th"], e0["el"]
+                thv = strip(th)
+                thv = thv["expr"] if thv.get("k") == "Block" and thv.get("expr") is not None and not thv.get("stmts") else thv
+                if is_user_word(thv):
+                    if below_modulus(e0["c"], thv):
+                        a = ("ok", "identity under `word < modulus.value()`")
+                    else:
+                        a = ("bad", "the caller's word is stored unchanged under a guard that is not `word < modulus.value()`")
+                else:
+                    a = judge(th, depth + 1)
+                b = judge(el, depth + 1)
+                for r in (a, b):
+                    if r[0] == "bad":
+                        return r
+                for r in (a, b):
+                    if r[0] == "unk":
+                        return r
+                return a
+            if is_user_word(e0):
+                return ("bad", "the caller's word is stored without reduction")
+            r = resolve(e0)
+            if r is not e0 and r.get("k") in ("If", "Block"):
+                return judge(r, depth + 1)
+            c = cl.classify(p, e0)
+            if c and c[0] == "red":
+                return ("ok", "result of a reducing routine")
+            if c and c[0] == "any":
+                return ("bad", c[1])
+            return ("unk", (c or ("", "cyclic"))[1] or "an element of a buffer the rule does not know")
+
+        k_site = 0
+        for x in walk(body):
+            rhs = None
+            if x.get("k") == "Assign" and strip(x["lhs"]).get("k") == "Index":
+                rl = root_local(x["lhs"])
+                if rl and rl[0] in dests:
+                    rhs = x["rhs"]
+            if rhs is None:
+                continue
+            n += 1
+            rep.fn(p)
+            key = "%s/store#%d" % (p, k_site)
+            k_site += 1
+            v, why = judge(rhs)
+            if v == "ok":
+                rep.ok(RR, key, "stored coefficient: %s" % why, facts.loc(p, x), sample={"function": p, "why": why})
+            elif v == "bad":
+                rep.violation(RR, key, "encode_polynomial stores a coefficient that is not reduced modulo the plain modulus — %s.  A "
+                              "coefficient v with t <= v is kept as it is: decode_polynomial returns v instead of v mod t and the "
+                              "plaintext is not valid for the context" % why, facts.loc(p, x))
+            else:
+                rep.unresolved(RR, key, "stored coefficient not classified: %s" % why, facts.loc(p, x))
+    rep.floor(RR, "coefficient stores of encode_polynomial", n, floor)
+    return n
